@@ -120,7 +120,8 @@ func (b *Batch) Get(key []byte) ([]byte, error) {
 		if logRecord.Type == datafile.LogRecordDeleted {
 			return nil, ErrKeyNotFound
 		}
-		return logRecord.Value, nil
+		// 返回副本, 暂存记录的缓冲区会被后续操作复用
+		return append([]byte(nil), logRecord.Value...), nil
 	}
 
 	// 记录未缓存则执行查询
